@@ -58,7 +58,7 @@ def _lemmas():
     return out
 
 
-SPELLINGS_PRE = ["a", "b", "c", "rc", "alpha", "beta", "pre", "preview", "A", "RC"]
+SPELLINGS_PRE = ["a", "b", "c", "rc", "alpha", "beta", "pre", "preview", "A", "RC", "Alpha", "BETA", "Beta", "Preview", "PRE", "C"]
 
 
 def _gen_version(rng):
@@ -71,7 +71,7 @@ def _gen_version(rng):
     if rng.random() < 0.5:
         s += rng.choice(["", ".", "-", "_"]) + rng.choice(SPELLINGS_PRE) + rng.choice(["", ".", "-"]) + rng.choice(["", "0", "1", "12"])
     if rng.random() < 0.3:
-        s += rng.choice([".post", "-post", "post", ".rev", "-r", "-"]) + rng.choice(["1", "2", "0"])
+        s += rng.choice([".post", "-post", "post", ".rev", "-r", "-", ".Rev", "-R", ".POST"]) + rng.choice(["1", "2", "0"])
     if rng.random() < 0.3:
         s += rng.choice([".dev", "-dev", "dev", "_dev"]) + rng.choice(["", "0", "3"])
     if rng.random() < 0.2:
